@@ -276,6 +276,33 @@ func TestC16_BIP32(t *testing.T) {
 			t.Fatalf("NewPrivateKeyFromPath(%q): %v", pathStr, err)
 		}
 		cmpPriv(t, "from path "+pathStr, pk, refCur)
+		// the same path written with leading zeros is the same path (child numbers are decimal), and an element that is
+		// not a plain decimal number (with an optional ') is no path
+		if depth > 0 {
+			padded := "m"
+			for _, c := range path {
+				z := strings.Repeat("0", rapid.IntRange(0, 2).Draw(t, "zeros"))
+				if c >= bip.Hardened {
+					padded += fmt.Sprintf("/%s%d'", z, c-bip.Hardened)
+				} else {
+					padded += fmt.Sprintf("/%s%d", z, c)
+				}
+			}
+			pk2, err := bip32.NewPrivateKeyFromPath(seed, padded)
+			if err != nil {
+				t.Fatalf("NewPrivateKeyFromPath(%q) (leading zeros): %v", padded, err)
+			}
+			if pk2.String() != pk.String() {
+				t.Fatalf("path %q and path %q (leading zeros) give different keys: %s / %s", pathStr, padded, pk.String(), pk2.String())
+			}
+			els := strings.Split(pathStr, "/")
+			k := rapid.IntRange(1, len(els)-1).Draw(t, "badelem")
+			els[k] = rapid.SampledFrom([]string{"0x2c", "0X2C'", "0b11", "0o17", "1_0", "+5", "-1", " 5", "5 ", "", "'", "5''", "4294967296", "2147483648'", "1e3", "٣"}).Draw(t, "badspelling")
+			badPath := strings.Join(els, "/")
+			if bk, err := bip32.NewPrivateKeyFromPath(seed, badPath); err == nil {
+				t.Fatalf("NewPrivateKeyFromPath accepted %q (element %q is not a decimal child number) and derived %s", badPath, els[k], bk.String())
+			}
+		}
 		// serialisation round trips
 		xprv := cur.String()
 		d, err := bip32.DeserializeEncodedPrivateKey(xprv)
